@@ -46,12 +46,12 @@ CHECKS['C08'] = dict(
    text="Session.tla models the only state that survives a call (the caller's 'text' entry, the caller's cache dict with the table "
         "it was built from and units written into cached tokens, per-call objects reachable from module state) with one action per "
         "step of markup.parse()/stylesheet.parse(). TLC checks CallerConfigStable, ResultPure and NoRetention for every history up to "
-        "the bound over 49 call kinds (11 caller objects incl. shared Config instances and shared cache dicts, succeeding and failing "
-        "calls) and proves each invariant non-vacuous by switching on the five named as-is deviations. Every history is executed "
+        "the bound over 76 call kinds (14 caller objects incl. shared Config instances and shared cache dicts, succeeding and failing "
+        "calls) and proves each invariant non-vacuous by switching on the six named as-is deviations. Every history is executed "
         "against the real expand(); after each call the state of every caller object, equality with the same call's result in a fresh "
         "interpreter and a gc census of live library objects are logged, and Trace_Session.tla validates the log by performing the call "
         "with Session's own actions.",
-   note="Bounded histories (exhaustive to 2 calls quick / 3 thorough, simulated beyond). Census relies on CPython gc; objects held by "
+   note="Bounded histories (all histories of 2 calls executed; thorough: all histories of 3 calls model-checked and a sample of 90 000 executed; simulated beyond). Census relies on CPython gc; objects held by "
         "a caller-supplied cache are not retention. Fresh results: one new interpreter per call kind.",
    technique="TLA+ step-level model with deviation self-test + spec->code history replay + code->spec trace validation",
    ref="5/C08")
